@@ -72,7 +72,7 @@ def gen_vocab(ch, ft):
         objects.append([ONAMES[i], pick_type()])
     if ft.get("agent_first"):
         objects = [o for o in objects if o[1] != "agent"]
-        for i in range(ch.int(2, 4)):
+        for i in range(ch.int(ft.get("min_agents", 2), 4)):
             objects.append([f"ag{i}", "agent"])
     dom = {"name": "d", "typed": typed, "types": types, "constants": consts, "predicates": preds,
            "functions": funcs, "actions": []}
@@ -130,8 +130,18 @@ class FGen:
                 return [name] + args
         return None
 
-    def number(self):
-        return self.ch.choice(NUMBERS)
+    def number(self, simple=False):
+        """A constant: mostly from the small pool; with ft["p_long_number"] (outside the simplifier-bound nested
+        positions) one with 1..ft["long_decimals"] decimals and an integer part of up to five digits."""
+        ch = self.ch
+        p = self.ft.get("p_long_number", 0.0)
+        if p and not simple and ch.flag(p):
+            nd = ch.int(1, self.ft.get("long_decimals_eff" if getattr(self, "_in_effect", False) else "long_decimals",
+                                       self.ft.get("long_decimals", 7)))
+            ip = ch.choice(["0", "0", str(ch.int(1, 9)), str(ch.int(10, 999)), str(ch.int(1000, 99999))])
+            frac = "".join(ch.choice("0123456789") for _ in range(nd - 1)) + ch.choice("123456789")
+            return ("-" if ch.flag(0.2) else "") + ip + "." + frac
+        return ch.choice(NUMBERS)
 
     def expr(self, scope, depth):
         ch = self.ch
@@ -163,10 +173,26 @@ class FGen:
         if ft is None:
             return None
         op = ch.choice(["<", "<=", ">", ">=", "="])
+        if simple and self.ft.get("nested_monomials") and ch.flag(0.3):
+            # simplifier-stable beyond (cmp fluent number): a fluent times one or two constants whose product has
+            # <= 2 decimals (0.29 * 100 is 28.999999999999996 in floats), compared with another fluent (monomial)
+            other = None
+            for _ in range(4):
+                other = self.fterm(scope)
+                if other is not None and other != ft:
+                    break
+                other = None
+            if other is not None:
+                def mono(t):
+                    c1 = ch.choice(["0.29", "0.57", "0.07", "1.13", "0.5", "2.25", "0.35", "1.1"])
+                    c2 = ch.choice(["100", "10", "2", "5", "3", "100"])
+                    return ch.choice([["*", ["*", t, c1], c2], ["*", c2, ["*", t, c1]], ["*", c1, ["*", t, c2]],
+                                      ["*", t, c1], ["*", c2, t], t])
+                return [op, mono(ft), mono(other)]
         if simple:
-            rhs = self.number() if ch.flag(0.6) else (self.fterm(scope) or self.number())
+            rhs = self.number(True) if ch.flag(0.6) else (self.fterm(scope) or self.number(True))
             if rhs == ft:
-                rhs = self.number()
+                rhs = self.number(True)
             return [op, ft, rhs]
         for _ in range(5):
             a, b = self.expr(scope, 2), self.expr(scope, 2)
@@ -264,7 +290,12 @@ class FGen:
         if k == "num":
             ftm = self.fterm(scope)
             if ftm is not None:
-                return [ch.choice(["assign", "increase", "decrease"]), ftm, self.expr(scope, 2)]
+                self._in_effect = True
+                try:
+                    rhs = self.expr(scope, 2)
+                finally:
+                    self._in_effect = False
+                return [ch.choice(["assign", "increase", "decrease"]), ftm, rhs]
             k = "add"
         a = self.atom(scope)
         if a is None:
@@ -343,7 +374,9 @@ def gen_action(ch, dom, ft, name="act"):
     tnames = [t for t, _ in dom["types"]] or ["object"]
     n = ch.int(0, ft["max_params"])
     params = []
-    if ft.get("agent_first"):
+    if ft.get("agent_first") and ft.get("p_zero_param") and ch.flag(ft["p_zero_param"]):
+        n = 0                                      # a parameterless action: any agent's slot may hold it
+    elif ft.get("agent_first"):
         params.append(["?ag", "agent"])
         n = max(0, n - 1)
     for i in range(n):
@@ -374,11 +407,16 @@ def gen_domain(ch, ft=None):
     return dom, objects
 
 
-def gen_state(ch, world, density=None):
+# large values a small absolute distance apart: a tolerance that silently became relative calls them equal
+BIG_VALUES = [Fraction(x) for x in ["250000", "250010", "250000.5", "249999.75", "1000000", "1000050", "1000000.25",
+                                    "-250000", "-250010", "40000", "40002"]]
+
+
+def gen_state(ch, world, density=None, values=None):
     atoms = world.ground_atoms()
     p = density if density is not None else ch.choice([0.2, 0.5, 0.8])
     facts = frozenset(a for a in atoms if ch.flag(p))
-    fl = {k: ch.choice(VALUES) for k in world.ground_fluents()}
+    fl = {k: ch.choice(values or VALUES) for k in world.ground_fluents()}
     return facts, fl
 
 
